@@ -11,7 +11,7 @@ use std::f64::consts::PI;
 
 pub fn monitor() -> Monitor {
   Monitor { id: "C13",
-    rule: "elliptical cones: centres as for C05 (sphere, poles, seams, transition latitude, exact cell centres), semi-major axis a from 1e-10 rad to 0.999 pi/2 (log-uniform, 1e-3..40 cell sizes of the query depth, radii aimed at (1 +- u) x each starting-depth threshold), b/a in [0.05, 1] with one third exactly circular, position angle in [0, pi), query depth 0..29, delta 0..3 (depth+delta <= 29), a/cell <= 40. Oracles: no panic, well formed, centre cell covered, every cell centre within a + 2 x 1.08/nside(its depth), circular => the C05 witness oracle (>= 160 points strictly inside), a >= pi/2 panics for both entry points. Non-trivial = ellipse containing a pole / touching a seam meridian or the transition latitude / a within 5% of a threshold / delta > 0 / circular.",
+    rule: "elliptical cones: centres as for C05 (sphere, poles, seams, transition latitude, exact cell centres), semi-major axis a from 1e-10 rad to 0.999 pi/2 (log-uniform, 1e-3..40 cell sizes of the query depth, radii aimed at (1 +- u) x each starting-depth threshold), b/a in [0.05, 1] with one third exactly circular, position angle in [0, pi), one ellipse in 10 (when the search succeeds) thin with a numerically singular planar covariance and centred exactly on a cell centre of a depth <= the working depth, one in 12 with axes 1e-160..1e-9 rad centred on / a few ulps off a cell centre of depth 20..29, query depth 0..29, delta 0..3 (depth+delta <= 29), a/cell <= 40. Oracles: no panic, well formed, centre cell covered, every cell centre within a + 2 x 1.08/nside(its depth), circular => the C05 witness oracle (>= 160 points strictly inside), a >= pi/2 panics for both entry points. Non-trivial = ellipse containing a pole / touching a seam meridian or the transition latitude / a within 5% of a threshold / delta > 0 / circular.",
     assumptions: &["Layer::hash (C01) locates centre and witnesses", "largest centre-to-vertex distance per depth from refm::cell_radius_bound (measured)"],
     run, replay }
 }
@@ -42,10 +42,32 @@ pub fn gen_ell(rng: &mut Rng) -> Case {
     // sizes far below the deepest cell (down to 1e-20 rad), centred on / a few ulps off the centre of a cell of the query depth
     if rng.below(12) == 0 { depth = 20 + rng.below(10) as u8; let c = nested::get_or_create(depth).center(rng.below(n_hash(depth)));
       lon = crate::util::nudge(c.0, rng.below(5) as i64 - 2); lat = crate::util::nudge(c.1, rng.below(5) as i64 - 2).max(-PI / 2.0).min(PI / 2.0);
-      a = rng.log_uniform(1e-20, 1e-9); b = if rng.coin() { a } else { a * rng.log_uniform(1e-9, 1.0) };
+      // (one in three: down to 1e-160 rad, where products of the axes underflow)
+      a = if rng.below(3) == 0 { rng.log_uniform(1e-160, 1e-20) } else { rng.log_uniform(1e-20, 1e-9) }; b = if rng.coin() { a } else { a * rng.log_uniform(1e-9, 1.0) };
       return Case::new("ell").u("depth", depth as u64).u("dd", 0).f("lon", lon).f("lat", lat).f("a", a).f("b", b).f("pa", pa).u("s", rng.next() >> 1).s("cls", &format!("tiny:b/a~1e{}", (b / a).log10().floor() as i32)); }
+    // thin ellipses whose planar covariance matrix is numerically singular, centred exactly on the centre of a cell of a depth <= the
+    // working depth (a cell the descent visits): (a, pa) pairs for which sigx2.sigy2 - (rho.sigx.sigy)^2, evaluated in f64 the way
+    // the crate does for its thinnest representable ellipse, cancels to exactly 0 (found by search, pa within 1.5 deg of pi/4 or 3pi/4)
+    if rng.below(10) == 0 {
+      let base = if rng.coin() { PI / 4.0 } else { 3.0 * PI / 4.0 };
+      for _ in 0..400_000 { let pa2 = base + (rng.f() - 0.5) * 0.052; if singular_cov(a, pa2) {
+        let k = rng.below(depth as u64 + dd as u64 + 1) as u8; let c = nested::get_or_create(k).center(rng.below(n_hash(k)));
+        let b2 = a * rng.log_uniform(1e-12, 1.4e-8);
+        return Case::new("ell").u("depth", depth as u64).u("dd", dd as u64).f("lon", c.0).f("lat", c.1).f("a", a).f("b", b2).f("pa", pa2).u("s", rng.next() >> 1).s("cls", "singular-covariance@cell-centre");
+      } }
+    }
     return Case::new("ell").u("depth", depth as u64).u("dd", dd as u64).f("lon", any_turn(rng, lon)).f("lat", lat).f("a", a).f("b", b).f("pa", pa).u("s", rng.next() >> 1).s("cls", &format!("b/a~1e{}", (b / a).log10().floor() as i32));
   }
+}
+
+/// f64 evaluation of the determinant of the planar covariance matrix of the thinnest ellipse (b = 1.5e-8 a) of semi-major axis a and
+/// position angle pa, in the order of operations of `Ellipse::from_oriented`: true iff it cancels to exactly 0
+fn singular_cov(a: f64, pa: f64) -> bool {
+  let (sa, sb) = (a.sin(), (a * 1.5e-8).sin());
+  let (st, ct) = (PI / 2.0 - pa).sin_cos();
+  let (a2, b2, s2, c2) = (sa * sa, sb * sb, st * st, ct * ct);
+  let sigx2 = a2 * c2 + b2 * s2; let sigy2 = a2 * s2 + b2 * c2; let rho = ct * st * (a2 - b2);
+  sigx2 * sigy2 - rho * rho == 0.0
 }
 
 fn run(ctx: &mut Ctx, extra: &mut BTreeMap<String, String>) {
